@@ -195,10 +195,10 @@ fn translate_head(
             ),
             Some(v) => Ok(Rc::new(v.with_loc(l.clone()))),
         },
-        SExp::Integer(l, i) => match prim_map.get(&u8_from_number(i.clone())) {
-            None => Ok(sexp.clone()),
-            Some(v) => Ok(Rc::new(v.with_loc(l.clone()))),
-        },
+        // An integer head is already an opcode.  It must not be looked up by
+        // the spelling of its bytes: 61 (%) is spelled "=" and 62 (keccak256)
+        // is spelled ">".
+        SExp::Integer(_, _) => Ok(sexp.clone()),
         SExp::Cons(_l, _a, nil) => match nil.borrow() {
             SExp::Nil(_l1) => run(
                 allocator,
